@@ -219,6 +219,8 @@ class TreeHeapMixin:
     if ty == 'parr':        # pointwise array of non-negative finite numbers
       t = z3.Real(self.path.fresh_name(name))
       return VPArr(t, False)
+    if ty == 'pcols':       # pointwise 2-D array: a generic row, addressed by column
+      return VPCols(z3.Function(self.path.fresh_name(name + '.col'), z3.IntSort(), z3.RealSort()))
     if ty == 'heap':
       self.tree_init()
       return VHeap(z3.Const(self.path.fresh_name(name), Heap))
@@ -331,6 +333,10 @@ class TreeHeapMixin:
 
   # ---- Python operations on nodes ---------------------------------------------------------------------
   def getitem(self, base, idx):
+    if isinstance(base, VPCols):
+      if isinstance(idx, VTuple) and len(idx.items) == 2 and isinstance(idx.items[0], VSlice):
+        return VReal(base.col(self.to_int(idx.items[1])), False)       # a[:, j]: column j of the generic row
+      raise Unsupported('subscript of a column-addressed array other than a[:, j]')
     if isinstance(base, VPArr):
       return VReal(base.t, base.nan)        # the generic element of the (sliced / broadcast) array
     if isinstance(base, VKeyPath):
